@@ -290,24 +290,24 @@ pub fn check_result(
     }
     // order by reported distance
     let desc = larger_is_nearer(metric);
+    // Degenerate data (C20): a score that is NaN or overflowed is ordered by the implementation's
+    // total order *before* normalisation, which the reported value no longer shows (Manhattan
+    // reports max(NaN, 0) = 0). Ordering is therefore judged only between results whose vectors,
+    // like the query, are made of finite, moderate components.
+    let clean = |v: &[u32]| v.iter().all(|b| {
+        let x = f32::from_bits(*b);
+        x.is_finite() && x.abs() < 1e18
+    });
+    let query_clean = clean(query);
     for w in result.windows(2) {
         let (a, b) = (w[0].1, w[1].1);
-        let ok = if judge_distances {
-            if desc {
-                a >= b
-            } else {
-                a <= b
+        if !judge_distances {
+            let both_clean = query_clean && model.get(&w[0].0).map_or(false, |v| clean(v)) && model.get(&w[1].0).map_or(false, |v| clean(v));
+            if !both_clean || a.is_nan() || b.is_nan() {
+                continue;
             }
-        } else {
-            // total order of OrderedFloat: NaN is the greatest
-            let (oa, ob) = (ordered_key(a), ordered_key(b));
-            if desc {
-                // reported = -built ; built ascending => reported descending, NaN last either way
-                oa >= ob || a.is_nan() || b.is_nan()
-            } else {
-                oa <= ob
-            }
-        };
+        }
+        let ok = if desc { a >= b } else { a <= b };
         if !ok {
             return fail("X/order", format!("results not ordered nearest first: {result:?}"));
         }
@@ -364,14 +364,6 @@ pub fn check_result(
         }
     }
     Ok(())
-}
-
-fn ordered_key(x: f32) -> (u8, f32) {
-    if x.is_nan() {
-        (1, 0.0)
-    } else {
-        (0, x)
-    }
 }
 
 // ------------------------------------------------------------------------------------------
